@@ -170,6 +170,7 @@ struct World {
 
 fn config_text(bmp_port: u16, http_port: u16, variant: usize, d: &Desired, bgp_port: u16) -> String {
     let tpl = TEMPLATES[variant];
+    // debugging aid: VH_E2E_LOG=<level> makes rotonda log at that level to stderr (World::start then also initialises its logger)
     let lvl = std::env::var("VH_E2E_LOG").unwrap_or_else(|_| "error".into());
     let script = if d.script == 0 { String::new() } else { format!("roto_script = \"{}\"\n", script_name(d.file_no)) };
     let rib2 = match d.rib2 {
